@@ -131,3 +131,60 @@ def _run(shard, nshards):
 
 NSH = 8
 BOUNDED = [Bounded("C10.pause_pickle_restart[%d/%d]" % (i, NSH), P, _run(i, NSH), kind="differential on listed networks (not exhaustive)") for i in range(NSH)]
+
+
+# ---------------------------------------------------------------------------- _ValveSourceChecker: the cached "has a source" answers stay current
+#
+# The uninterrupted run keeps one checker for the whole run, a continued run builds a fresh one: the two agree only if the cache of the long-lived one is
+# refreshed whenever a link status it watches has changed since the answers were computed.
+
+from pyvc.core import Contract, Case
+from pyvc.values import NativeModel
+from pyvc import library as _library
+import types as _types
+import wntr.sim.core as _core
+from wntr.network import LinkStatus as _LS
+
+
+def _checker_case(first, needs, snapshot_state, current_state):
+    """two watched links; statuses at the last computation (snapshot) and now (current) enumerated"""
+    def build(cx):
+        class _El(object):
+            def __init__(self, name):
+                self.name = name
+        la, lb = _El("A"), _El("B")
+        keys = [(la, "status"), (lb, "status")]
+        prev = {k: v for k, v in zip(keys, current_state)}
+        snap = {k: v for k, v in zip(keys, snapshot_state)} if not first else {}
+        log = []
+        valve = _El("V")
+        wn = _types.SimpleNamespace(prvs=lambda: [("V", valve)], psvs=lambda: [], fcvs=lambda: [])
+        chk = cx.obj(_core._ValveSourceChecker, wn=wn, graph="graph", _previous_values=prev, _values_at_last_compute=snap, _needs_compute=needs,
+                     _cached_results=({} if first else {valve: "stale"}), _first_compute=first)
+        m = cx.interp.models
+        m.register(_core._check_upstream_sources, lambda i, a, k: (log.append(("up", a[2])), "fresh")[1], trusted="graph search (networkx), bounded by C09 / C10 stand-ins")
+        m.register(_core._check_downstream_sources, lambda i, a, k: (log.append(("down", a[2])), "fresh")[1], trusted="graph search (networkx)")
+        cx.target(_core._ValveSourceChecker.should_valve_be_opened, chk, valve)
+
+        def post(out):
+            if not out.returned:
+                return []
+            changed = (not first) and any(snapshot_state[i] != current_state[i] for i in range(2))
+            must = first or (needs and changed)
+            g = lambda a: cx.interp.getattr(chk, a)
+            posts = [("answers_recomputed_exactly_when_a_watched_status_changed_since_they_were_computed_or_never_computed", (len(log) == 1) == must),
+                     ("answer_is_the_fresh_one_after_a_recomputation_the_cached_one_otherwise", out.value == ("fresh" if must else "stale")),
+                     ("nothing_left_to_compute", g("_needs_compute") is False and g("_first_compute") is False)]
+            if must:
+                posts.append(("the_statuses_the_answers_were_computed_for_are_remembered", dict(g("_values_at_last_compute")) == prev))
+            return posts
+        cx.ensure(post)
+    nm = lambda st: "/".join(s.name for s in st)
+    return Case("first=%s,needs_compute=%s,at_last_compute=%s,now=%s" % (first, needs, nm(snapshot_state), nm(current_state)), build, crosscheck=False)
+
+
+_STATES = [(_LS.Open, _LS.Open), (_LS.Closed, _LS.Open), (_LS.Open, _LS.Closed)]
+CONTRACTS = [Contract("wntr.sim.core:_ValveSourceChecker.should_valve_be_opened/_compute", P + ["C02"],
+                      [_checker_case(True, True, _STATES[0], s_) for s_ in _STATES[:2]] +
+                      [_checker_case(False, n_, a_, b_) for n_ in (True, False) for a_ in _STATES for b_ in _STATES],
+                      note="enumerated: two watched links x their statuses at the last computation and now; the graph searches are stubs")]
